@@ -111,7 +111,7 @@ STAR = [
     ("DC3(*ARGS)", "DC3(1, 3)"), ("DC3(**KW)", "DC3(a=1, b=3)"), ("DC3(1, *ARGS[1:])", "DC3(2, 2)"), ("DC3(a=1, **{'b': 2})", "DC3(a=2, b=2)"),
     ("[[*A], 1]", "[[5, 7], 2]"), ("{'k': [*A, 1]}", "{'k': [5, 6, 2]}"), ("[*A]", "[5, 6]"), ("[*A, 1+0]", "[5, 6, 1]"),
 ]
-STAR_PRE = "A = [5, 6]\nD = {'x': 1}\nARGS = (1, 2)\nKW = {'a': 1, 'b': 2}\n\n\n"
+STAR_PRE = "A = [5, 6]\nD = {'x': 1}\nD2 = {'x': 1, 'y': 2}\nARGS = (1, 2)\nKW = {'a': 1, 'b': 2}\n\n\n"
 
 
 def _cases(tier):
@@ -192,6 +192,15 @@ REEVAL = [
     "assert i in snapshot([Is(i), 9])",
     "assert i + 0 == snapshot(Is(i))",
     "assert [i, 5] == snapshot([Is(i), 5+0])",
+    # containers with star-expressions evaluated again (their nodes do not line up with the elements of the value)
+    "assert [5, 6, i] == snapshot([*A, Is(i)])",
+    "assert [5, 6, 1] == snapshot([*A, 1])",
+    "assert {'k': (5, 6, i)} == snapshot({'k': (*A, Is(i))})",
+    "assert {'x': 1, 'y': 2, 'k': i} == snapshot({**D2, 'k': Is(i)})",
+    "assert {'x': 1, 'k': 1} == snapshot({**D, 'k': 1})",
+    "assert DC3(a=1, b=2) == snapshot(DC3(**KW))",
+    "assert DC3(1, 2) == snapshot(DC3(*ARGS))",
+    "assert DC3(a=1, b=2, c=i) == snapshot(DC3(**KW, c=Is(i)))",
 ]
 
 
@@ -374,7 +383,7 @@ def _analyze(c, i, before, after, rx, ctx):
 
 
 def _judge(cases):
-    star = any("star" in c for c in cases)
+    star = any("star" in c or "*" in c.get("reeval", "") for c in cases)
     hdr = DC3 + DC5 + HAND_PRE + (STAR_PRE if star else "")
     return batch.one_file(cases, _site, lambda c: ["Is"], cases[0]["F"], _analyze, header=hdr)
 
